@@ -568,8 +568,25 @@ fn snapshot_solves(v: &Value, prob: &Value) -> Value {
                 a == Some(prov.version_set_name(VersionSetId(id)))
             });
         }
+        // candidate preference order as the snapshot (after the round trip) reports it
+        let mut ranked = Vec::new();
+        let mut ranked_unions = Vec::new();
+        {
+            use resolvo::runtime::AsyncRuntime;
+            let rt = resolvo::runtime::NowOrNeverRuntime;
+            let cache = SolverCache::new(back.provider());
+            for &id in &captured {
+                let so = rt.block_on(cache.get_or_cache_sorted_candidates(Requirement::Single(VersionSetId(id)))).ok().unwrap();
+                ranked.push(json!([id, so.iter().map(|s| s.0).collect::<Vec<_>>()]));
+            }
+            for (uid, _) in back.version_set_unions.iter() {
+                let so = rt.block_on(cache.get_or_cache_sorted_candidates(Requirement::Union(uid))).ok().unwrap();
+                ranked_unions.push(json!([uid.0, so.iter().map(|s| s.0).collect::<Vec<_>>()]));
+            }
+        }
         json!({"direct": direct, "roundtrip": roundtrip, "json_len": text.len(), "fresh_id": fresh,
-               "captured_version_sets": captured, "captured_resolve_after_add": names_ok})
+               "captured_version_sets": captured, "captured_resolve_after_add": names_ok,
+               "ranked": ranked, "ranked_unions": ranked_unions})
     }));
     match r {
         Ok(v) => v,
